@@ -459,6 +459,7 @@ func c12(tier string, args []string) int {
 	}
 	c12PositionSweep(run, tier, shard, n)
 	c12NewGame(run, shard, n)
+	c12NewGameDeep(run, shard, n)
 	return run.FinishWorker()
 }
 
@@ -755,6 +756,69 @@ func c12NewGame(run *vl.Run, shard, n int) {
 					}
 					rep["after_newgame"], rep["fresh"] = out, fresh
 					run.Violate(cls, "after ucinewgame a depth-3 search gives "+out+" but a fresh engine gives "+fresh, rep)
+				}
+			}
+		}
+	}
+}
+
+// c12NewGameDeep: a first game of three deeper searches (killer moves, history and counter-move tables, hash table all
+// filled), ucinewgame, then a depth-5 / depth-6 search of another middlegame position: same bestmove, score and pv as on
+// a fresh engine.
+func c12NewGameDeep(run *vl.Run, shard, n int) {
+	first := []string{"position startpos moves e2e4 c7c5 g1f3 d7d6 d2d4 c5d4 f3d4 g8f6 b1c3 a7a6", "position startpos moves e2e4 c7c5 g1f3 d7d6 d2d4 c5d4 f3d4 g8f6 b1c3 a7a6 c1e3 e7e5", "position fen r3k2r/p1ppqpb1/bn2pnp1/3PN3/1p2P3/2N2Q1p/PPPBBPPP/R3K2R w KQkq - 0 1"}
+	laters := append([]string{"2kr3r/ppp1qppp/2n1bn2/4p3/4P3/2NP1N2/PPP1QPPP/2KR1B1R w - - 0 10", "r1bq1rk1/pp2ppbp/2np1np1/8/3NP3/2N1BP2/PPPQ2PP/R3KB1R w KQ - 3 9"}, testdataFens(8)...)
+	job := 0
+	for _, useHash := range []bool{true, false} {
+		for _, later := range laters {
+			for _, depth := range []int{4, 5, 6} {
+				job++
+				if job%n != shard || run.Expired() {
+					continue
+				}
+				session := func(withFirstGame bool) (string, *sched.Exec) {
+					var out string
+					x := sched.Run(nil, func() {
+						config.Settings.Search.UseBook = false
+						config.Settings.Search.TTSize = 1
+						config.Settings.Search.UseTT = useHash
+						s := newSession()
+						gos := 0
+						if withFirstGame {
+							for _, f := range first {
+								s.send(f)
+								gos++
+								s.send("go depth 5")
+								s.await(gos)
+							}
+							s.send("ucinewgame")
+						}
+						s.send("position fen " + later)
+						mark := len(s.lines)
+						gos++
+						s.send(fmt.Sprintf("go depth %d", depth))
+						s.await(gos)
+						out = searchOutcome(s.lines[mark:])
+					}, sched.Options{MaxSteps: 400000000})
+					config.Settings.Search.UseTT = true
+					return out, x
+				}
+				fresh, x1 := session(false)
+				after, x2 := session(true)
+				run.AddStates(2)
+				run.Count("deep_newgame_sessions", 1)
+				rep := map[string]interface{}{"kind": "uci", "use_hash": useHash, "first_game": first, "later": later, "depth": depth}
+				if x1.Verdict != "" || x2.Verdict != "" {
+					run.Violate("newgame:"+x1.Verdict+x2.Verdict, x1.Detail+x2.Detail, rep)
+					continue
+				}
+				if after != fresh {
+					cls := "newgame-differs-from-fresh-engine:after-a-longer-game"
+					if !useHash {
+						cls += ":hash-disabled"
+					}
+					rep["after_newgame"], rep["fresh"] = after, fresh
+					run.Violate(cls, fmt.Sprintf("after a three-search game and ucinewgame a depth-%d search gives %s but a fresh engine gives %s", depth, after, fresh), rep)
 				}
 			}
 		}
